@@ -939,10 +939,10 @@ def rule_T1(ctx):
     ctx.begin("T1", floor=2, what="byte steps on line text")
     prog = ctx.prog
     n = 0
-    for f in prog.funcs.values():
-        if f.file not in ("ex.c", "vi.c", "mot.c", "led.c", "cmd.c", "tag.c"):
-            continue
-        tainted = set()
+    FILES = ("ex.c", "vi.c", "mot.c", "led.c", "cmd.c", "tag.c")
+
+    def local_taint(f, seed):
+        tainted = set(seed)
         for s, lv, op, rhs in stores(f.body):
             if rhs is None or lv["k"] not in ("ref", "var"):
                 continue
@@ -962,6 +962,26 @@ def rule_T1(ctx):
                     if lv.get("ptr") or lv.get("ty", "").startswith("char *"):
                         tainted.add(lv["name"])
                         changed = True
+        return tainted
+    # a line handed to a static helper of the same file: its parameter is line text too
+    seeds = {}
+    for f in prog.funcs.values():
+        if f.file not in FILES:
+            continue
+        t0 = local_taint(f, ())
+        for c in f.calls():
+            g = prog.resolve(f, c["fn"]) if c.get("fn") else None
+            if g is None or g.file != f.file or not g.static or g is f:
+                continue
+            for i, a in enumerate(c["args"][:len(g.params)]):
+                a = strip_casts(a)
+                if is_call(a, "lbuf_get") or (a["k"] == "ref" and a["name"] in t0):
+                    if g.params[i].get("ty", "").startswith("char *"):
+                        seeds.setdefault(g.qname, set()).add(g.params[i]["name"])
+    for f in prog.funcs.values():
+        if f.file not in FILES:
+            continue
+        tainted = local_taint(f, seeds.get(f.qname, ()))
         if not tainted:
             continue
         for s, lv, op, rhs in stores(f.body):
